@@ -46,20 +46,22 @@ FAMILIES = {
         "columns": ("ParamsCols", "ColMovesQ", 4, "NoTr", "PageOnly", "First1", ["GTBRepush"]),
         "figures": ("ParamsFig", "FigMoves", 3, "NoTr", "PageAndFigure", "First1", ["SkipFigure", "BuildOther"]),
         "extreme": ("ParamsExtreme", "MixMovesQ", 3, "BothTr", "PageOnly", "First1", ["GONewV", "BuildOther"]),
+        "overprint": ("ParamsOver", "OverMoves", 3, "BothTr", "PageOnly", "First1", []),
     },
     "thorough": {
         "lines":   ("ParamsLineQ", "LineMovesQ", 3, "BothTr", "PageOnly", "First1", []),
         "linesT":  ("ParamsLineT", "LineMovesQ", 3, "BothTr", "PageOnly", "First1", []),
         "lines4":  ("ParamsLine4", "LineMoves4", 4, "BothTr", "PageOnly", "First1", []),
-        "linesmix": ("ParamsLineQ", "LineMovesT", 3, "BothTr", "PageOnly", "First2", []),
+        "linesmix": ("ParamsLine4", "LineMovesT", 3, "BothTr", "PageOnly", "First2", []),
         "stack":   ("ParamsStack", "StackMovesQ", 4, "NoTr", "PageOnly", "First1", []),
-        "stack3":  ("ParamsStack", "StackMovesT", 3, "NoTr", "PageOnly", "First2", []),
+        "stack3":  ("ParamsStack3", "StackMovesT", 3, "NoTr", "PageOnly", "First2", []),
         "stackv":  ("ParamsStackV", "StackMovesQ", 3, "BothTr", "PageOnly", "First1", []),
         "columns": ("ParamsCols", "ColMovesQ", 5, "NoTr", "PageOnly", "First1", []),
         "columns4": ("ParamsCols3", "ColMovesT", 4, "NoTr", "PageOnly", "First2", []),
         "columnsv": ("ParamsColsV", "ColMovesQ", 4, "BothTr", "PageOnly", "First1", []),
         "figures": ("ParamsFig", "FigMoves", 4, "NoTr", "PageAndFigure", "First1", []),
         "extreme": ("ParamsExtreme", "MixMovesT", 3, "BothTr", "PageOnly", "First1", []),
+        "overprint": ("ParamsOver", "OverMoves", 4, "BothTr", "PageOnly", "First1", []),
     },
 }
 SIM = {"quick": (400, 9), "thorough": (6000, 9)}     # -simulate: behaviours, glyphs
@@ -68,7 +70,7 @@ SIM = {"quick": (400, 9), "thorough": (6000, 9)}     # -simulate: behaviours, gl
 def consts(fam, dev):
     params, moves, maxitems, trs, wheres, firsts, _ = fam
     return {"Params": "<- " + params, "Moves": "<- " + moves, "MaxItems": maxitems, "Trs": "<- " + trs,
-            "Wheres": "<- " + wheres, "Firsts": "<- " + firsts, "PG": "<- PG512", "G": 400, "Scales": "<- Scales28",
+            "Wheres": "<- " + wheres, "Firsts": "<- " + firsts, "PG": "<- PG512", "G": 400, "Scales": "<- Scales2864",
             "Dev": tla_set(dev) if dev else "<- NoDev"}
 
 
@@ -76,7 +78,8 @@ def run_family(ck, name, fam, invariants, dev, workers, coverage):
     cfg = write_cfg(os.path.join(ck.tmp, "lay_%s.cfg" % name), constants=consts(fam, dev), invariants=invariants,
                     properties=["Termination"], deadlock=True)
     emit = os.path.join(ck.tmp, "lay_%s.ndjson" % name)
-    res = run_tlc(SPEC, cfg, emit=emit, coverage=coverage, workers=workers, timeout=7200, heap="6g")
+    # depth-first queue: the frontier of the breadth-first search of the wide families spills to disk otherwise
+    res = run_tlc(SPEC, cfg, emit=emit, coverage=coverage, workers=workers, timeout=3000, heap="6g", dfs=True)
     return name, fam, res, emit
 
 
@@ -101,7 +104,7 @@ def tlc_direction_a(ck, invariants, dev, extra_jobs=()):
     fams = FAMILIES[ck.tier]
     jobs = []
     nw = max(2, (os.cpu_count() or 4) // 3)
-    with ThreadPoolExecutor(max_workers=5) as ex:
+    with ThreadPoolExecutor(max_workers=5 if ck.tier == "quick" else 7) as ex:
         # biggest first
         for name, fam in sorted(fams.items(), key=lambda kv: kv[0] not in ("lines", "linesv", "lines4", "linesmix", "columns", "columns4")):
             jobs.append(ex.submit(run_family, ck, name, fam, invariants, dev, nw, False))
@@ -137,14 +140,39 @@ def extra_results():
     return list(_XR)
 
 
-def load_groups(emit):
-    """terminal states grouped by (arrangement, LAParams, container): the outcomes of the id() tie-break choices"""
+def head_of(line):
+    """(page, p, wh) of a printed record without parsing its (large) outcome part"""
+    i = line.find(',"out":')
+    if line.startswith('{"page":') and i > 0:
+        try:
+            return json.loads(line[:i] + "}")
+        except ValueError:
+            pass
+    r = json.loads(line)
+    return {"page": r["page"], "p": r["p"], "wh": r["wh"]}
+
+
+def load_groups(emit, sim):
+    """completed analyses grouped by (arrangement, LAParams, container) - the group is the set of outcomes of the id()
+    tie-break choices.  Kept as raw JSON lines (the workers parse them): -> {key: (sim, head, [lines])}"""
     groups = {}
     with open(emit) as f:
         for line in f:
-            r = json.loads(line)
-            groups.setdefault(R.rec_key(r), []).append(r)
-    return list(groups.values())
+            h = head_of(line)
+            k = R.rec_key(h)
+            g = groups.get(k)
+            if g is None:
+                groups[k] = (sim, h, [line])
+            else:
+                g[2].append(line)
+    return groups
+
+
+def parse_group(g):
+    sim, head, lines = g
+    rs = [json.loads(ln) for ln in lines]
+    rs[0]["_sim"] = sim
+    return rs
 
 
 # ------------------------------------------------------------------------------------------------ replay workers
@@ -166,7 +194,9 @@ def _init_worker(mode, known_dev):
     _W["mode"] = mode
     _W["dev"] = known_dev
     try:
-        resource.setrlimit(resource.RLIMIT_AS, (3 << 30, 3 << 30))
+        with open("/proc/self/statm") as f:
+            cur = int(f.read().split()[0]) * resource.getpagesize()
+        resource.setrlimit(resource.RLIMIT_AS, (cur + (3 << 30), cur + (3 << 30)))
     except (ValueError, OSError):
         pass
     signal.signal(signal.SIGALRM, _alarm)
@@ -183,6 +213,21 @@ def pool_map(fn, jobs, mode, dev):
         raise MachineryError("a replay worker process died (%s)" % e)
 
 
+def canon(tree):
+    """the projected tree with the lines of every box that share their sort key (top edge; right edge in vertical boxes)
+    put in content order - two trees equal under canon() differ only in the order of such lines"""
+    out, groups = tree
+    res = []
+    for e in out:
+        if e[0] == "box":
+            key = (lambda ln: -ln[2][2]) if e[1] == "V" else (lambda ln: -ln[2][3])
+            lines = sorted(e[4], key=lambda ln: (key(ln), [x for x in ln[1] if x > 0][:1]))
+            res.append(e[:4] + (tuple(lines),))
+        else:
+            res.append(e)
+    return tuple(res), groups
+
+
 def short(rec):
     return {"page": [[it["k"], it["bb"], it["t"]] for it in rec["page"]], "p": rec["p"], "wh": rec["wh"]}
 
@@ -191,8 +236,9 @@ def replay_chunk(chunk):
     """chunk: list of groups (each a list of records with one key).  -> dict of counters and findings"""
     mode = _W["mode"]
     res = {"n": 0, "runs": 0, "dev": 0, "mismatch": [], "viol": [], "tie": 0, "tie_real": 0, "nontrivial": [],
-           "colpage": 0, "scalecmp": 0, "samples": [], "pred_evals": 0, "sim_tie": 0}
-    for rs in chunk:
+           "colpage": 0, "scalecmp": 0, "samples": [], "pred_evals": 0, "sim_tie": 0, "gridties": 0}
+    for g in chunk:
+        rs = parse_group(g)
         rec = rs[0]
         outs = {(R.model_out(r), R.model_groups(r)) for r in rs}
         outs_c = {(R.model_out(r, True), R.model_groups(r)) for r in rs}
@@ -233,6 +279,15 @@ def replay_chunk(chunk):
                 per_scale.setdefault(scale, []).append((rev, got))
                 ok = got in outs
                 asdev = (not ok) and got in outs_c
+                if not ok and not asdev and canon(got) in {canon(o) for o in outs | outs_c}:
+                    # named deviation GridOrderTies: lines with the same top edge inside a box come in the order of
+                    # the Plane grid.  No C08 clause speaks about that order; for C09 the outcome depends on the scale.
+                    res["gridties"] += 1
+                    if mode == "C09":
+                        res["viol"].append(("dev:GridOrderTies", "lines with the same top edge inside a text box are ordered by the "
+                                            "50 pt grid of utils.Plane, hence differently at another scale",
+                                            dict(short(rec), scale=str(scale), rev=rev, observed=repr(got)[:1200])))
+                    continue
                 check_pred = (not ok) or (res["n"] % 16 == 1 and si == 0 and not rev)
                 fails = []
                 if check_pred:
@@ -260,17 +315,22 @@ def replay_chunk(chunk):
                         res["mismatch"].append(dict(short(rec), scale=str(scale), rev=rev, observed=repr(got)[:800],
                                                     model=repr(sorted(outs)[0])[:800]))
                 elif fails:
-                    # the model agrees with the code and TLC holds the invariant, yet the harness predicate fails:
-                    # the two statements of the property disagree - machinery, not a verdict
-                    raise MachineryError("harness predicate %s fails on a case where code == model: %s / %r"
-                                         % (fails[0][0], fails[0][1], short(rec)))
+                    # the projected tree equals the model's, yet a predicate of the property fails on the real objects:
+                    # it fails in something the projection does not carry (e.g. get_text of a container) - the
+                    # predicate is the property as stated, so this is a violation
+                    for key, msg in fails:
+                        res["viol"].append((key, msg + " (the projected tree equals the specification's)",
+                                            dict(short(rec), scale=str(scale), rev=rev)))
         # scale invariance on the real code: same outcome at every scale (compared where no id() tie is involved)
         if mode == "C09" and not tie and not sampled:
             base = per_scale.get(1, [(None, None)])[0][1]
             for scale, lst in per_scale.items():
                 for rev, got in lst:
                     res["scalecmp"] += 1
-                    if got != base:
+                    if got != base and canon(got) == canon(base):
+                        res["viol"].append(("dev:GridOrderTies", "the order of lines with the same top edge inside a text box "
+                                            "changes between scale 1 and scale %s" % scale, dict(short(rec), scale=str(scale))))
+                    elif got != base:
                         res["viol"].append(("scale-variant", "outcome at scale %s differs from scale 1" % scale,
                                             dict(short(rec), scale=str(scale), at_scale=repr(got)[:1200], at_1=repr(base)[:1200])))
         if tie:
@@ -288,8 +348,9 @@ def replay_pdf_chunk(job):
     """job: (groups sharing one LAParams, scales, with_text) -> counters/findings.  One document per scale,
     one page per arrangement."""
     groups, scales, with_text = job
+    groups = [parse_group(g) for g in groups]
     mode = _W["mode"]
-    res = {"pages": 0, "docs": 0, "mismatch": [], "viol": [], "dev": 0, "text": 0, "scalecmp": 0}
+    res = {"pages": 0, "docs": 0, "mismatch": [], "viol": [], "dev": 0, "text": 0, "scalecmp": 0, "gridties": 0}
     if not groups:
         return res
     la = R.la_of(groups[0][0]["p"])
@@ -318,12 +379,19 @@ def replay_pdf_chunk(job):
                     res["dev"] += 1
             elif sampled:
                 pass
+            elif canon(got) in {canon(o) for o in outs | outs_c}:
+                res["gridties"] += 1
+                if mode == "C09":
+                    res["viol"].append(("dev:GridOrderTies", "PDF route: lines with the same top edge inside a text box are "
+                                        "ordered by the 50 pt grid of utils.Plane", dict(short(rec), scale=str(scale), route="pdf")))
             else:
                 res["mismatch"].append(dict(short(rec), scale=str(scale), route="pdf", observed=repr(got)[:800],
                                             model=repr(sorted(outs)[0])[:800]))
             if texts is not None:
                 res["text"] += 1
-                want = {R.expected_text(o[0], rec) for o in outs | outs_c}
+                # the text must be the concatenation of a tree the analysis can give: an outcome of the specification
+                # (extract_text is a second run, its id() ties may fall differently) or the tree extract_pages gave
+                want = {R.expected_text(o[0], rec) for o in outs | outs_c} | {R.expected_text(got[0], rec)}
                 if texts[i] + "\f" not in want and not sampled:
                     res["viol"].append(("text-concat", "extract_text of the page is not the concatenation of its boxes' text",
                                         dict(short(rec), scale=str(scale), observed=texts[i][:300], expected=sorted(want)[0][:300])))
@@ -334,7 +402,10 @@ def replay_pdf_chunk(job):
                 continue
             vals = list(d.values())
             res["scalecmp"] += len(vals) - 1
-            if any(v != vals[0] for v in vals[1:]):
+            if any(v != vals[0] for v in vals[1:]) and all(canon(v) == canon(vals[0]) for v in vals[1:]):
+                res["viol"].append(("dev:GridOrderTies", "PDF route: the order of lines with the same top edge inside a text box "
+                                    "differs between scales %s" % (list(d),), dict(short(groups[i][0]), route="pdf")))
+            elif any(v != vals[0] for v in vals[1:]):
                 res["viol"].append(("scale-variant", "PDF route: outcome differs between scales %s" % (list(d),),
                                     dict(short(groups[i][0]), route="pdf")))
     return res
@@ -348,30 +419,25 @@ def _replay_any(job):
 def direction_a(ck, mode, invariants, dev, pdf_every, pdf_scales, pdf_text_every, extra_jobs=()):
     outs = tlc_direction_a(ck, invariants, dev, extra_jobs)
     t0 = time.time()
-    allgroups = []
+    allgroups = {}
     per_family = {}
-    for name, emit in outs:
-        gs = load_groups(emit)
+    for name, emit in sorted(outs, key=lambda x: x[0] == "simulate"):      # an exhaustively explored copy wins
+        gs = load_groups(emit, name == "simulate")
         os.remove(emit)
-        for rs in gs:
-            rs[0]["_sim"] = name == "simulate"
         if not gs:
             raise MachineryError("family %s: TLC printed no completed analysis" % name)
         per_family[name] = len(gs)
-        allgroups += gs
+        for k, g in gs.items():
+            allgroups.setdefault(k, g)
     ck.extra["arrangements_per_family"] = per_family
-    # deduplicate arrangements reached in several families
-    seen = {}
-    for rs in sorted(allgroups, key=lambda rs: rs[0]["_sim"]):      # an exhaustively explored copy wins
-        seen.setdefault(R.rec_key(rs[0]), rs)
-    allgroups = list(seen.values())
+    allgroups = list(allgroups.values())
     nproc = min(16, os.cpu_count() or 4)
     chunks = [allgroups[i::nproc * 4] for i in range(nproc * 4)]
     # PDF jobs: groups by LAParams
     byp = {}
-    for i, rs in enumerate(allgroups):
-        if R.pdf_realisable(rs[0]) and i % pdf_every == 0:
-            byp.setdefault(R.pkey(rs[0]["p"]), []).append(rs)
+    for i, g in enumerate(allgroups):
+        if R.pdf_realisable(g[1]) and i % pdf_every == 0:
+            byp.setdefault(R.pkey(g[1]["p"]), []).append(g)
     jobs = []
     for j, lst in enumerate(byp.values()):
         for o in range(0, len(lst), 150):
@@ -379,7 +445,7 @@ def direction_a(ck, mode, invariants, dev, pdf_every, pdf_scales, pdf_text_every
     both = pool_map(_replay_any, [("d", c) for c in chunks if c] + [("p", j) for j in jobs], mode, dev)
     res1 = [r for k, r in both if k == "d"]
     res2 = [r for k, r in both if k == "p"]
-    tot = {"n": 0, "runs": 0, "dev": 0, "tie": 0, "tie_real": 0, "colpage": 0, "scalecmp": 0, "pred_evals": 0, "sim_tie": 0}
+    tot = {"n": 0, "runs": 0, "dev": 0, "tie": 0, "tie_real": 0, "colpage": 0, "scalecmp": 0, "pred_evals": 0, "sim_tie": 0, "gridties": 0}
     mismatches = []
     perkey = {}
 
@@ -398,7 +464,7 @@ def direction_a(ck, mode, invariants, dev, pdf_every, pdf_scales, pdf_text_every
             ck.case(0, ("A", h))
         for s in r["samples"]:
             ck.sample(s, limit=6)
-    pdf = {"pages": 0, "docs": 0, "dev": 0, "text": 0, "scalecmp": 0}
+    pdf = {"pages": 0, "docs": 0, "dev": 0, "text": 0, "scalecmp": 0, "gridties": 0}
     for r in res2:
         for k in pdf:
             pdf[k] += r[k]
@@ -419,6 +485,7 @@ def direction_a(ck, mode, invariants, dev, pdf_every, pdf_scales, pdf_text_every
     ck.extra["tiebreak_dependence_realised_with_reversed_ids"] = tot["tie_real"]
     ck.extra["column_pages"] = tot["colpage"]
     ck.extra["simulated_runs_on_another_tiebreak_path"] = tot["sim_tie"]
+    ck.extra["runs_differing_only_in_the_order_of_equal_top_lines"] = tot["gridties"]
     ck.extra["scale_comparisons"] = tot["scalecmp"] + pdf["scalecmp"]
     ck.extra["model_code_drift"] = len(mismatches)
     ck.extra["replay_wall_s"] = round(time.time() - t0, 1)
@@ -431,7 +498,7 @@ def direction_a(ck, mode, invariants, dev, pdf_every, pdf_scales, pdf_text_every
                 "tie-break of group_textboxes; %d of them change their box order on the real code when id() order is "
                 "reversed (allocation dependence - a C12 matter, the real result is always one of the model's outcomes)"
                 % (tot["tie"], tot["tie_real"]))
-    return allgroups
+    return len(allgroups)
 
 
 # ------------------------------------------------------------------------------------------------ direction B
@@ -496,8 +563,10 @@ def record_file(args):
         origin = "%s %s container#%d" % (os.path.relpath(path, "/repo"), la_kwargs, i)
         for key, msg in O.c08_failures(run["cont"], run["items"], la):
             out["fail08"].append((key, msg, origin))
-        for key, msg in O.c09_failures(run["cont"], run["items"], la):
+        f9 = {}
+        for key, msg in O.c09_failures(run["cont"], run["items"], la, f9):
             out["fail09"].append((key, msg, origin))
+        out["rounding09"] = out.get("rounding09", 0) + f9.get("rounding", 0)
         tr = O.trace_of(run, 0, origin)
         if tr is None:
             out["skipped"] += 1
@@ -531,6 +600,8 @@ def record_samples(ck, mode, corrupt=None):
                 ck.violation("dev:NoIndexFlowNone", msg, {"origin": origin})
             else:
                 ck.violation(key, "%s (%s)" % (msg, origin), {"origin": origin, "laparams": r["la"]})
+        if r.get("rounding09"):
+            rounding["c09-predicates"] = rounding.get("c09-predicates", 0) + r["rounding09"]
         for tr in r["traces"]:
             tr["tid"] = len(traces) + 1
             for k, v in tr["rounding"].items():
@@ -643,8 +714,7 @@ def finish_traces(ck, job_results):
 
 
 # ------------------------------------------------------------------------------------------------ the as-coded design
-def ascoded_model_run(ck, dev, invariants):
+def ascoded_model_run(ck, dev, invariants, fam=("ParamsFig", "FigMoves", 2, "NoTr", "PageOnly", "First1", [])):
     """TLC on the specification with the named deviations switched on (the design as coded), small space."""
-    fam = ("ParamsFig", "FigMoves", 2, "NoTr", "PageOnly", "First1", [])
     cfg = write_cfg(os.path.join(ck.tmp, "lay_ascoded.cfg"), constants=consts(fam, dev), invariants=invariants, deadlock=True)
     return run_tlc(SPEC, cfg, workers=2, timeout=600)
